@@ -299,12 +299,13 @@ def run(ctx):
     if keep == (1 if quick else 3):
         cases[5].update(worker="cf", flags="ALL")
     cases.sort(key=lambda c: (not hazardous(c), c["worker"] != "cf"))  # slow ones first, spread over workers
-    per = 2 if quick else 20
+    nb = 20 if quick else 32  # slow cases are dealt round-robin so that every worker gets its share
+    batches = [{"cases": cases[i::nb]} for i in range(nb)]
     ctx.rule = ("programs from a pool of 10 (ok/failing python, python with File input, ok/failing shell, 2-3 node chain, "
                 "chain with a failing node, nested workflow, split, split with a failing element) x {PROV, ALL} x "
                 "{debug, cf} x {once, resubmitted on the same cache}; non-trivial = at least 2 messages were written "
                 "and the hook trace saw at least one executed job; distinct = distinct generated case")
-    res = ctx.pmap("vp.props.c36:case_batch", [{"cases": cases[i:i + per]} for i in range(0, len(cases), per)],
+    res = ctx.pmap("vp.props.c36:case_batch", batches,
                    nproc=10 if quick else 16, timeout=900 if quick else 3300)
     ctx.record_all(res)
     ctx.assumptions = ["executed jobs are counted by pre/post_run_task hooks attached to every job of the program; "
